@@ -323,19 +323,30 @@ def two(it, e):
 
 
 def strftime(it, dt, fmt):
-    if not isinstance(fmt, str):
-        if isinstance(fmt, SStr) and fmt.concrete():
-            fmt = fmt.pystr()
-        else:
-            raise C.Unsupported("symbolic strftime format")
+    # the format is a text whose characters are concrete or symbolic (e.g. digits spliced in by the caller): a symbolic
+    # character is copied as it is, provided it cannot be the directive character '%'
+    if isinstance(fmt, str):
+        chars = [ord(c) for c in fmt]
+    elif isinstance(fmt, SStr):
+        fmt = M.resolve(it, fmt)
+        chars = [c for _, c in fmt.items]
+    else:
+        raise C.Unsupported("symbolic strftime format")
     items = []
     i = 0
-    while i < len(fmt):
-        ch = fmt[i]
-        if ch != "%":
-            items.append((True, ord(ch))); i += 1
+    while i < len(chars):
+        ch = chars[i]
+        if not isinstance(ch, int):
+            if not it.valid(zint(ch) != 37):
+                raise C.Unsupported("strftime format with a symbolic character that may be '%'")
+            items.append((True, ch)); i += 1
             continue
-        code = fmt[i + 1]
+        if ch != 37:
+            items.append((True, ch)); i += 1
+            continue
+        if i + 1 >= len(chars) or not isinstance(chars[i + 1], int):
+            raise C.Unsupported("strftime directive")
+        code = chr(chars[i + 1])
         i += 2
         if code == "Y":
             y = zint(dt.y)
